@@ -10,16 +10,19 @@ EXPL = ("Decides with the write census over MIR: every conversion copies each fi
         "conversion chains as a value statement (it follows only informally from the per-conversion field facts).")
 
 
+CONV = r"(into_mut_|to_long_form|to_raw_form|try_into_mut_short|from_short_form|from_raw_form|from_normalized|core::convert::(Try)?From<internals::hash|::normalize$|::clone_normalized$|init_from_raw_form|hash_dual::algorithms::(compress|expand))"
+
+
 def run(ctx):
     cfgs = ["rel"] if ctx.tier == "quick" else ["rel", "dbg", "unsafe", "nodef", "strict"]
     for c in cfgs:
         prog = ctx.prog(c)
-        ctx.guard("C15", "like", lambda: fields.like_index(ctx, prog))
-        ctx.guard("C15", "complete", lambda: fields.dest_complete(ctx, prog))
-        ctx.guard("C15", "writers", lambda: tail.classify_writers(ctx, prog))
+        ctx.guard("C15", "like", lambda: fields.like_index(ctx, prog, scope=CONV, floor=25))
+        ctx.guard("C15", "complete", lambda: fields.dest_complete(ctx, prog, scope=CONV, floor=5))
+        ctx.guard("C15", "writers", lambda: tail.classify_writers(ctx, prog, scope=CONV, floor=8))
         ctx.guard("C15", "expand", lambda: tail.compress_expand(ctx, prog))
         ctx.guard("C15", "narrow", lambda: convert.narrowing(ctx, prog))
         ctx.guard("C15", "traits", lambda: convert.trait_forms(ctx, prog))
         ctx.guard("C15", "funnel", lambda: convert.normaliser_funnel(ctx, prog))
-        ctx.guard("C15", "sym", lambda: eqord.len_index_symmetry(ctx, prog))
+        ctx.guard("C15", "sym", lambda: eqord.len_index_symmetry(ctx, prog, scope=CONV, floor=4))
     return ctx.finish(EXPL, ["copy_from_slice/fill/clone_from_slice have their documented meaning", "source objects are valid (their own tail is zero)"])
